@@ -388,6 +388,9 @@ func (x *xferWorld) start() {
 	w.Go("client.main", x.client, func() {
 		fo := o.filterOpts
 		fo.TerminalColumns = o.cols
+		if o.cols < 0 {
+			fo.TerminalColumns = 0 // the width was never told
+		}
 		x.filter = NewTrzszFilter(x.kbd, x.term, x.up[0], x.down[0], fo)
 		if o.tunnel {
 			if x.clientConnector != nil {
